@@ -60,8 +60,8 @@ Definition c_reviewed : list (string * bool * list string) := [
   ("db_rs_tostr", true, []);
   ("delItemWithPrefix", true, ["luaDelDB"]);
   ("delegate_call_gas", true, []);
-  ("delete_breakpoint_lua", true, []);
-  ("delete_watchpoint_lua", true, []);
+  ("delete_breakpoint_lua", true, ["CDelBreakPoint"]);
+  ("delete_watchpoint_lua", true, ["CDelWatchPoint"]);
   ("deploy_value", true, []);
   ("getAmount", true, ["luaGetAmount"]);
   ("getBlockHeight", true, ["luaGetBlockNo"]);
@@ -74,16 +74,16 @@ Definition c_reviewed : list (string * bool * list string) := [
   ("getSender", true, ["luaGetSender"]);
   ("getTimestamp", true, ["luaGetTimeStamp"]);
   ("getTxhash", true, ["luaGetHash"]);
-  ("get_contract_info_lua", true, []);
-  ("get_watchpoint_lua", true, []);
+  ("get_contract_info_lua", true, ["CGetContractID"; "CGetSrc"]);
+  ("get_watchpoint_lua", true, ["CGetWatchPoint"]);
   ("governance", false, ["luaGovernance"]);
-  ("has_breakpoint_lua", true, []);
+  ("has_breakpoint_lua", true, ["CHasBreakPoint"]);
   ("is_contract", true, ["luaIsContract"]);
   ("is_fee_delegation", true, ["luaIsFeeDelegation"]);
   ("iter_aux", true, []);
   ("iter_codes", true, []);
-  ("len_watchpoints_lua", true, []);
-  ("list_watchpoints_lua", true, []);
+  ("len_watchpoints_lua", true, ["CLenWatchPoints"]);
+  ("list_watchpoints_lua", true, ["CGetWatchPoint"; "CLenWatchPoints"]);
   ("lua_json_decode", true, []);
   ("lua_json_encode", true, []);
   ("lua_random", true, ["luaRandomInt"]);
@@ -103,14 +103,15 @@ Definition c_reviewed : list (string * bool * list string) := [
   ("os_difftime", true, []);
   ("os_time", true, []);
   ("pcall", true, ["luaClearRecovery"; "luaDropEvent"; "luaGetEventCount"; "luaSetRecoveryPoint"]);
-  ("print_breakpoints_lua", true, []);
-  ("reset_breakpoints_lua", true, []);
-  ("reset_watchpoints_lua", true, []);
+  ("print_breakpoints_lua", true, ["PrintBreakPoints"]);
+  ("reset_breakpoints_lua", true, ["ResetBreakPoints"]);
+  ("reset_watchpoints_lua", true, ["ResetWatchPoints"]);
   ("resolve", true, ["luaNameResolve"]);
   ("setItem", true, []);
   ("setItemWithPrefix", true, ["luaSetDB"]);
-  ("set_breakpoint_lua", true, []);
-  ("set_watchpoint_lua", true, []);
+  ("set_breakpoint_lua", true, ["CSetBreakPoint"]);
+  ("set_watchpoint_lua", true, ["CSetWatchPoint"]);
+  ("sqlcheck_is_permitted_sql", false, ["PermittedCmd"]);
   ("stacktrace", true, []);
   ("state_array", true, []);
   ("state_array_append", true, []);
